@@ -30,7 +30,7 @@ try:
     report["applies"] = r.returncode == 0
     if r.returncode != 0:
         report["apply_error"] = r.stderr[-500:]
-        raise SystemExit
+        print(json.dumps(report, indent=1)); raise SystemExit(3)
     d1 = sh(f"/venv/bin/python {a.demo}", env=env, cwd=wt)
     report["demo_patched_exit"] = d1.returncode
     report["demo_patched_tail"] = (d1.stdout + d1.stderr)[-400:]
